@@ -28,16 +28,22 @@ _T = {}
 
 
 class O:
-    def __init__(self, x):
+    def __init__(self, x, name='x'):
         if x != 'MISSING-ATTR':
-            self.x = x
+            setattr(self, name, x)
+
+
+# names of the summarised variable, including ones that also are names of
+# sequence variables
+STAT_NAMES = ['x', 'x', 'x', 'item', 'key', 'n', 'count', 'length', 'index']
 
 
 # tag options that must not change what the statistics are (they are about
 # all x values of the sequence, whatever is displayed and in which order)
 TAG_OPTS = ['', '', '', 'sort=x', 'sort=x/cmp/desc', 'reverse',
             'sort=x reverse', 'size=2 start=1 orphan=0', 'prefix=p',
-            'size=3 orphan=0 sort=x', 'sort=x/nocase', 'sort=x/nocase/desc']
+            'size=3 orphan=0 sort=x', 'sort=x/nocase', 'sort=x/nocase/desc',
+            'no_push_item', 'no_push_item sort=x size=4 orphan=0']
 
 
 def template(mapping, name='x', opts=''):
@@ -59,14 +65,17 @@ def check(case):
                                                      1 + v % 28)
                 for v in vals]
     mapping = case['mapping']
-    seq = [{'x': v} for v in vals] if mapping else [O(v) for v in vals]
+    name = STAT_NAMES[case.get('name', 0) % len(STAT_NAMES)]
+    seq = [{name: v} for v in vals] if mapping else [O(v, name)
+                                                     for v in vals]
     opts = TAG_OPTS[case.get('opts', 0) % len(TAG_OPTS)]
     if 'nocase' in opts and (case['kind'] != 'str' or None in vals):
         # a comparison function of the author's is only handed real strings
         opts = opts.replace('/nocase/desc', '/cmp/desc').replace('/nocase',
                                                                  '')
     try:
-        out = template(mapping, 'x', opts)(s=seq)
+        out = template(mapping, name, opts.replace('sort=x',
+                                                   'sort=' + name))(s=seq)
     except Exception as e:
         kind = 'equal-floats' if len(set(v for v in vals if v is not None)) \
             == 1 else 'other'
@@ -234,8 +243,9 @@ def strategy():
                                none), min_size=1, max_size=8).map(
         lambda v: dict(kind='date', vals=v))
     return st.tuples(st.one_of(base, base, base, base, dates),
-                     st.booleans(), st.integers(0, 11)).map(
-        lambda t: dict(t[0], mapping=t[1], opts=t[2]))
+                     st.booleans(), st.integers(0, 13),
+                     st.integers(0, 8)).map(
+        lambda t: dict(t[0], mapping=t[1], opts=t[2], name=t[3]))
 
 
 def nontrivial(case):
